@@ -956,6 +956,84 @@ theorem strlen_first_nul (m : Mem) (s : Nat) (l : List Byte) (fuel : Nat) (h : H
   have : p.length < fuel := by have := congrArg List.length e; simp at this; omega
   exact strlen_spec m s p fuel hc this
 
+/-- strncmp is TOTAL on two C strings for EVERY n (0, smaller, equal, larger than the lengths, SIZE_MAX):
+no fault, and the result is 0 exactly when the first n characters - the terminator counts as a
+character, nothing behind it is compared - agree -/
+theorem strncmp_total (m : Mem) (s1 s2 : Nat) (l1 l2 : List Byte) (n : Nat) (h1 : CStr m s1 l1) (h2 : CStr m s2 l2) :
+    ∃ r, strncmp m s1 s2 n = some r ∧ (r = 0 ↔ (l1 ++ [0#8]).take n = (l2 ++ [0#8]).take n) := by
+  rcases first_diff_cstr l1 l2 h1.2 h2.2 with e | ⟨p, x, y, r1, r2, e1, e2, hxy, hp⟩
+  · subst e
+    exact ⟨0, strncmp_equal m s1 s2 l1 n h1 h2, by simp⟩
+  · have g1 := h1.1; have g2 := h2.1
+    rw [e1] at g1; rw [e2] at g2
+    rw [e1, e2]
+    by_cases hn : p.length < n
+    · have a1 : Holds m s1 (p ++ [x]) := by
+        rw [show p ++ x :: r1 = (p ++ [x]) ++ r1 by simp, holds_append] at g1; exact g1.1
+      have a2 : Holds m s2 (p ++ [y]) := by
+        rw [show p ++ y :: r2 = (p ++ [y]) ++ r2 by simp, holds_append] at g2; exact g2.1
+      refine ⟨_, strncmp_first_difference m s1 s2 p x y n a1 a2 hp hxy hn, ?_⟩
+      have hnz : ucInt x - ucInt y ≠ 0 := fun h0 => hxy ((ucInt_sub_sign x y).2.mp h0)
+      constructor
+      · intro h0; exact absurd h0 hnz
+      · intro ht
+        have t1 : (p ++ x :: r1).take n = p ++ (x :: r1).take (n - p.length) := by
+          rw [List.take_append]; simp [List.take_of_length_le (Nat.le_of_lt hn)]
+        have t2 : (p ++ y :: r2).take n = p ++ (y :: r2).take (n - p.length) := by
+          rw [List.take_append]; simp [List.take_of_length_le (Nat.le_of_lt hn)]
+        rw [t1, t2] at ht
+        have := List.append_cancel_left ht
+        obtain ⟨j, hj⟩ : ∃ j, n - p.length = j + 1 := ⟨n - p.length - 1, by omega⟩
+        rw [hj, List.take_succ_cons, List.take_succ_cons] at this
+        exact absurd (List.cons.inj this).1 hxy
+    · have hn' : n ≤ p.length := by omega
+      refine ⟨0, ?_, ?_⟩
+      · cases n with
+        | zero => rfl
+        | succ k =>
+          have hk : k < p.length := by omega
+          have hsplit : p = p.take k ++ p[k] :: p.drop (k + 1) := by
+            rw [List.getElem_cons_drop, List.take_append_drop]
+          have hp3 : p.take k ++ [p[k]] ++ p.drop (k + 1) = p := by
+            rw [List.append_assoc, List.singleton_append]; exact hsplit.symm
+          have a1 : Holds m s1 (p.take k ++ [p[k]]) := by
+            rw [show p ++ x :: r1 = (p.take k ++ [p[k]]) ++ (p.drop (k + 1) ++ x :: r1) by
+              rw [← List.append_assoc, hp3], holds_append] at g1
+            exact g1.1
+          have a2 : Holds m s2 (p.take k ++ [p[k]]) := by
+            rw [show p ++ y :: r2 = (p.take k ++ [p[k]]) ++ (p.drop (k + 1) ++ y :: r2) by
+              rw [← List.append_assoc, hp3], holds_append] at g2
+            exact g2.1
+          have := strncmp_equal_prefix m s1 s2 (p.take k) p[k] a1 a2 (fun e => hp (List.mem_of_mem_take e))
+          simpa [List.length_take, Nat.min_eq_left (Nat.le_of_lt hk)] using this
+      · have t1 : (p ++ x :: r1).take n = p.take n := by
+          rw [List.take_append]; simp [Nat.sub_eq_zero_of_le hn']
+        have t2 : (p ++ y :: r2).take n = p.take n := by
+          rw [List.take_append]; simp [Nat.sub_eq_zero_of_le hn']
+        simp [t1, t2]
+
+/-- strcasecmp is TOTAL on two C strings: no fault, and 0 exactly when the strings agree after the
+"C"-locale tolower -/
+theorem strcasecmp_total (m : Mem) (s1 s2 : Nat) (l1 l2 : List Byte) (fuel : Nat) (h1 : CStr m s1 l1)
+    (h2 : CStr m s2 l2) (hf : l1.length < fuel) :
+    ∃ r, strcasecmp m s1 s2 fuel = some r ∧ (r = 0 ↔ l1.map lowerB = l2.map lowerB) := by
+  rcases first_diff_cstr_lower l1 l2 h1.2 h2.2 with e | ⟨p1, p2, x, y, r1, r2, e1, e2, hp, hxy, h0⟩
+  · exact ⟨0, strcasecmp_equal m s1 s2 l1 l2 fuel h1 h2 e hf, by simp [e]⟩
+  · have g1 : Holds m s1 (p1 ++ [x]) := by
+      have := h1.1; rw [e1, show p1 ++ x :: r1 = (p1 ++ [x]) ++ r1 by simp, holds_append] at this; exact this.1
+    have g2 : Holds m s2 (p2 ++ [y]) := by
+      have := h2.1; rw [e2, show p2 ++ y :: r2 = (p2 ++ [y]) ++ r2 by simp, holds_append] at this; exact this.1
+    have hpl : p1.length ≤ l1.length := by
+      have := congrArg List.length e1; simp at this; omega
+    refine ⟨_, strcasecmp_first_difference m s1 s2 p1 p2 x y fuel g1 g2 hp h0 hxy (by omega), ?_⟩
+    have hnz : ucInt (lowerB x) - ucInt (lowerB y) ≠ 0 := fun h0' => hxy ((ucInt_sub_sign _ _).2.mp h0')
+    constructor
+    · intro h; exact absurd h hnz
+    · intro hmap
+      have : (l1 ++ [0#8]).map lowerB = (l2 ++ [0#8]).map lowerB := by simp [hmap]
+      rw [e1, e2, List.map_append, List.map_append, hp, List.map_cons, List.map_cons] at this
+      exact absurd (List.cons.inj (List.append_cancel_left this)).1 hxy
+
 /-! closed forms: for EVERY pair of C strings the result is a `takeWhile` of the list -/
 
 /-- strspn in closed form, for EVERY pair of C strings: the length of the longest prefix made of bytes of the set -/
@@ -1291,6 +1369,25 @@ example : ((List.range 128).filter fun c => inClass (c : Nat) CL_U).length = 26 
     ((List.range 128).filter fun c => inClass (c : Nat) CL_S).length = 6 ∧
     ((List.range 128).filter fun c => inClass (c : Nat) (CL_U ||| CL_L ||| CL_D ||| CL_P ||| CL_SP)).length = 95 := by decide +kernel
 example : ctypeArg 0 = -1 ∧ ctypeArg 256 = 255 := by decide
+
+/-! composite hypothesis sets are satisfiable (audit item 6): concrete memories on which the
+conclusions of the theorems are observed on the model -/
+
+/-- `strstr_found` / `strstr_total`: "xab" at 8, needle "ab" at 32 — first match at offset 1, the very end -/
+example : strstr (ofBufs [(8, [120#8, 97#8, 98#8, 0#8]), (32, [97#8, 98#8, 0#8])]) 8 32 10 = some (some 9) := by decide
+/-- needle longer than the haystack -/
+example : strstr (ofBufs [(8, [97#8, 0#8]), (32, [97#8, 98#8, 0#8])]) 8 32 10 = some none := by decide
+/-- `strncat_spec` with n = 2 < strlen(s2): two characters and a terminator are appended, the byte behind them survives -/
+example : (strncat (ofBufs [(8, [97#8, 0#8, 7#8, 7#8, 7#8]), (32, [98#8, 99#8, 100#8, 0#8])]) 8 32 2 10).map
+    (fun r => (r.2, readOut r.1 8 5)) = some (8, some [97#8, 98#8, 99#8, 0#8, 7#8]) := by decide
+/-- `strncmp_total`: "ab" vs "ac" agree on the first character only -/
+example : strncmp (ofBufs [(8, [97#8, 98#8, 0#8]), (32, [97#8, 99#8, 0#8])]) 8 32 1 = some 0 ∧
+    (strncmp (ofBufs [(8, [97#8, 98#8, 0#8]), (32, [97#8, 99#8, 0#8])]) 8 32 2) = some (-1) := by decide
+/-- `memcmp_total` on bytes >= 0x80: 0x80 > 0x7f as unsigned char -/
+example : memcmp (ofBufs [(8, [0x80#8]), (32, [0x7f#8])]) 8 32 1 = some 1 := by decide
+/-- `strspn_closed` / `strcspn_closed` -/
+example : strspn (ofBufs [(8, [97#8, 98#8, 44#8, 0#8]), (32, [98#8, 97#8, 0#8])]) 8 32 10 = some 2 ∧
+    strcspn (ofBufs [(8, [97#8, 98#8, 44#8, 0#8]), (32, [44#8, 0#8])]) 8 32 10 = some 2 := by decide
 
 /-! ### non-vacuity: the hypotheses used above are satisfiable (concrete memories) -/
 
